@@ -548,6 +548,17 @@ def srvCmd (st : St) : List String → St × String
   | ["dump"] => match st.srv with
     | some s => (st, fsDumpHex s.fs)
     | none => (st, "bad-op")
+  | ["busy", prog, vers, proc, accept, data] =>
+    match prog.toNat?, vers.toNat?, proc.toNat?, accept.toNat?, fromHex data with
+    | some prog, some vers, some proc, some accept, some data =>
+      (match Server.busy prog vers proc with
+       | .res r =>
+         if accept ≠ 0 then (st, s!"DIFF model=accepted status={r.status} impl=accept_stat {accept}")
+         else (match Rfc.decResWith false prog proc data with
+           | none => (st, s!"DIFF model={reprStr r} impl=undecodable {toHex data}")
+           | some r' => if r' = r then (st, "match") else (st, s!"DIFF model={reprStr r} impl={reprStr r'}"))
+       | o => if accept = outcomeAccept o then (st, "match") else (st, s!"DIFF model=accept_stat {outcomeAccept o} impl=accept_stat {accept}"))
+    | _, _, _, _, _ => (st, "bad-op")
   | ["call", now, flavor, uid, gid, aux, prog, vers, proc, args, accept, data] =>
     match st.srv, now.toNat?, flavor.toNat?, uid.toNat?, gid.toNat?, parseNatList aux, prog.toNat?, vers.toNat?, proc.toNat?,
           fromHex args, accept.toNat?, fromHex data with
